@@ -1,3 +1,43 @@
-From RV Require Import Val Syntax Rho Offline Online.
-Theorem C10_placeholder : True. Proof. exact I. Qed.
-Print Assumptions C10_placeholder.
+(* C10 — reset() returns an online monitor to its initial state: after any
+   history the reset monitor's outputs on any continuation are those of a fresh
+   monitor, and the jitter state restarts. *)
+From Coq Require Import List Arith ZArith.
+From RV Require Import Val Syntax Rho Offline Online OnlineCorrect Reset Jitter ExtZ.
+Import ListNotations.
+
+Theorem C10_reset :
+  forall (VS : Val) (AR : Arith VS) (pk : formula -> formula -> pkind)
+         (w w' : trace) (n n' : nat) (F : list formula) (h len : nat),
+    F <> [] -> (forall p, In p F -> past_only p = true /\ wf_bounds p = true) ->
+    let d := fst (mon_run AR pk F dict_init w 0 h) in
+    snd (mon_run AR pk F (mon_reset F d) w' 0 len) = snd (mon_run AR pk F dict_init w' 0 len).
+Proof. exact @reset_like_fresh. Qed.
+Print Assumptions C10_reset.
+
+(* reset() before the first update is harmless *)
+Theorem C10_reset_first :
+  forall (VS : Val) (AR : Arith VS) (pk : formula -> formula -> pkind)
+         (w' : trace) (n' : nat) (F : list formula) (len : nat),
+    F <> [] -> (forall p, In p F -> past_only p = true /\ wf_bounds p = true) ->
+    snd (mon_run AR pk F (mon_reset F dict_init) w' 0 len) = snd (mon_run AR pk F dict_init w' 0 len).
+Proof.
+  intros VS AR pk w' n' F len Hne HF.
+  exact (reset_like_fresh AR pk [] w' 0 n' F 0 len Hne HF).
+Qed.
+Print Assumptions C10_reset_first.
+
+(* the sampling-violation counter, the update counter and the previous time restart *)
+Theorem C10_counters : forall s, jreset s = jinit.
+Proof. reflexivity. Qed.
+Print Assumptions C10_counters.
+
+Example C10_nonvacuous :
+  let p : @formula ExtZVal := And (Since (Pred CGeq (Var 0) (Const (Fin 1))) (OnceT 1 2 (Pred CLeq (Var 0) (Const (Fin 0))))) (Prev (Var 0)) in
+  let w := [[Fin 3; Fin 0; Fin (-1); Fin 4]] in
+  let w' := [[Fin 2; Fin 2; Fin 0]] in
+  let pk := fun _ _ => PStd in
+  snd (mon_run ExtZArith pk [p] (mon_reset [p] (fst (mon_run ExtZArith pk [p] dict_init w 0 4))) w' 0 3)
+  = snd (mon_run ExtZArith pk [p] dict_init w' 0 3)
+  /\ snd (mon_run ExtZArith pk [p] (fst (mon_run ExtZArith pk [p] dict_init w 0 4)) w' 0 3)
+  <> snd (mon_run ExtZArith pk [p] dict_init w' 0 3).
+Proof. cbv zeta. split; vm_compute; [reflexivity|discriminate]. Qed.
